@@ -7,6 +7,8 @@ import (
 	"encoding/json"
 	"fmt"
 	"math"
+	"net/http"
+	"net/http/httptest"
 	"net/netip"
 	"net/url"
 	"reflect"
@@ -16,8 +18,8 @@ import (
 	"github.com/google/uuid"
 	"github.com/ogen-go/ogen/middleware"
 
-	api "scratch/papi"
 	"scratch/drv"
+	api "scratch/papi"
 )
 
 type cell struct {
@@ -278,13 +280,15 @@ func runParams() {
 	if err != nil {
 		drv.Fatal("NewServer: %v", err)
 	}
-	client, err := api.NewClient("http://x", api.WithClient(direct{srv}))
+	var lastReq *http.Request
+	client, err := api.NewClient("http://x", api.WithClient(direct{srv, &lastReq}))
 	if err != nil {
 		drv.Fatal("NewClient: %v", err)
 	}
 	cv := reflect.ValueOf(client)
 	ctx := reflect.ValueOf(context.Background())
 	alpha := []string{"a", ",", ".", ";", "=", "|", " ", "%", "/", "&", "+", "?", "#", "\"", "\\", "[", "]", "é"}
+	var respelled int64
 	var evals, nontriv int64
 	for _, op := range api.VerifOps {
 		var c cell
@@ -386,6 +390,48 @@ func runParams() {
 						report("different-value-delivered")
 					}
 				}
+				// equivalent spellings of the request path (RFC 3986 6.2.2: hex digits of an escape in
+				// the other case, an unreserved character escaped needlessly) deliver the same arguments
+				if c.Loc == "path" && lastReq != nil {
+					// "" stands for the URL a net/http server builds from the request line (RawPath is
+					// kept only when it is not the default encoding of the path)
+					for _, v := range append([]string{""}, respellPath(lastReq.URL.EscapedPath())...) {
+						respelled++
+						r2 := lastReq.Clone(context.Background())
+						u2 := *lastReq.URL
+						if v == "" {
+							pu, err := url.ParseRequestURI(lastReq.URL.RequestURI())
+							if err != nil {
+								continue
+							}
+							u2.Path, u2.RawPath = pu.Path, pu.RawPath
+							v = "(as parsed from the request line) " + pu.EscapedPath()
+						} else {
+							un, err := url.PathUnescape(v)
+							if err != nil || un != lastReq.URL.Path {
+								drv.Fatal("respelling %q of %q is not equivalent", v, lastReq.URL.EscapedPath())
+							}
+							u2.RawPath = v
+						}
+						r2.URL = &u2
+						h.Got, h.Calls = nil, 0
+						rec := httptest.NewRecorder()
+						var pan2 any
+						func() {
+							defer func() { pan2 = recover() }()
+							srv.ServeHTTP(rec, r2)
+						}()
+						same := pan2 == nil && h.Calls == 1 && deepEq(reflect.ValueOf(h.Got).FieldByName("P"), got)
+						if !same {
+							k.Detail = fmt.Sprintf("path %q delivered %s; equivalent spelling %q: status %d, handler calls %d, panic %v", lastReq.URL.EscapedPath(), k.Got, v, rec.Code, h.Calls, pan2)
+							if h.Calls == 1 {
+								k.Detail += fmt.Sprintf(", delivered %#v", reflect.ValueOf(h.Got).FieldByName("P").Interface())
+							}
+							report("equivalent-path-spelling-delivers-something-else")
+							break
+						}
+					}
+				}
 				// middleware saw the same arguments as the handler
 				found := false
 				for pk, pv := range mwParams {
@@ -407,6 +453,7 @@ func runParams() {
 	drv.Eval(evals)
 	drv.NontrivialN(nontriv)
 	drv.Stat("parameter_calls", evals)
+	drv.Stat("respelled_path_requests", respelled)
 	drv.Sample(map[string]any{"operation": "GET /cN/{p} path/matrix/explode=true/object/required", "value": `{a:"x y" b:"é"}`, "route": "Client.CN -> in-process transport -> Server -> middleware -> handler"})
 }
 
@@ -533,4 +580,57 @@ func runMulti(op api.VerifOp, c cell, cv, ctx reflect.Value, h *api.VerifHandler
 		}
 	}
 	return
+}
+
+// respellPath: spellings of an escaped path that RFC 3986 6.2.2 calls equivalent to it - every escape
+// with its hex digits in the other case, the first and the last unreserved character escaped needlessly
+// (lower- and upper-case hex), and both at once.
+func respellPath(p string) []string {
+	flip := func(s string) string {
+		b := []byte(s)
+		for i := 0; i+2 < len(b); i++ {
+			if b[i] == '%' {
+				for j := i + 1; j <= i+2; j++ {
+					switch {
+					case b[j] >= 'A' && b[j] <= 'F':
+						b[j] += 'a' - 'A'
+					case b[j] >= 'a' && b[j] <= 'f':
+						b[j] -= 'a' - 'A'
+					}
+				}
+				i += 2
+			}
+		}
+		return string(b)
+	}
+	unres := func(c byte) bool {
+		return c >= 'a' && c <= 'z' || c >= 'A' && c <= 'Z' || c >= '0' && c <= '9' || c == '-' || c == '_' || c == '.' || c == '~'
+	}
+	var pos []int
+	for i := 0; i < len(p); i++ {
+		if p[i] == '%' {
+			i += 2
+			continue
+		}
+		if unres(p[i]) {
+			pos = append(pos, i)
+		}
+	}
+	escAt := func(s string, i int, format string) string { return s[:i] + fmt.Sprintf(format, s[i]) + s[i+1:] }
+	set := map[string]bool{}
+	var out []string
+	add := func(v string) {
+		if v != p && !set[v] {
+			set[v] = true
+			out = append(out, v)
+		}
+	}
+	add(flip(p))
+	if len(pos) > 0 {
+		first, last := pos[0], pos[len(pos)-1]
+		add(escAt(p, first, "%%%02x"))
+		add(escAt(p, last, "%%%02X"))
+		add(flip(escAt(p, last, "%%%02X")))
+	}
+	return out
 }
